@@ -4,6 +4,7 @@ import (
 	"fmt"
 	"go/token"
 	"go/types"
+	"sort"
 
 	"golang.org/x/tools/go/ssa"
 
@@ -80,64 +81,71 @@ func runC19(c *Ctx) {
 
 	c.rule("C19.O2", disconnectPayloadDoc, func() { c.disconnectPayload() })
 
-	c.rule("C19.O3", "mirror maintenance: filterHeaderTip/filterHeaderTipHash mirror the filter-header store's tip and bound the backlog; every blockManager function that mutates cfg.RegFilterHeaders (WriteHeaders, RollbackLastBlock) stores the new tip under newFilterHeadersMtx on its success path", func() {
-		mut := callTo(fhs("WriteHeaders"), fhs("RollbackLastBlock"))
+	c.rule("C19.O3", filterTipMirrorDoc, func() { c.filterTipMirror() })
+
+	c.rule("C19.O6", "events go out when the chain changes, in that order: a block event is emitted by a plain call at the point where the store was changed; it is never deferred (deferred emissions run last-in-first-out when the function returns: a rollback of several blocks would announce the lowest block first, and only after all of them are gone) and never handed to a new goroutine (no order at all)", func() {
+		var helpers []*types.Func
+		for _, n := range []string{"onBlockConnected", "onBlockDisconnected"} {
+			if m := c.P.Method("neutrino", "blockManager", n); m != nil {
+				helpers = append(helpers, m)
+			}
+		}
+		ch := c.field("neutrino", "blockManager", "blockNtfnChan")
+		var bad []string
 		n := 0
-		res := c.lockResults()
-		key := lockKey{bm("newFilterHeadersMtx")}
 		for _, fn := range c.P.Funcs {
-			if c.P.Name(fn) == "" || fn.Parent() != nil {
+			if pkgOf(fn) == nil || pkgOf(fn).Path() != ir.ModPath {
 				continue
 			}
-			obj, _ := fn.Object().(*types.Func)
-			if obj == nil {
-				continue
-			}
-			sig := obj.Type().(*types.Signature)
-			if sig.Recv() == nil || !types.Identical(sig.Recv().Type(), types.NewPointer(c.P.Named("neutrino", "blockManager"))) {
-				continue
-			}
-			sites := find(fn, mut)
-			if len(sites) == 0 {
-				continue
-			}
-			n++
-			c.R.Funcs[c.nm(fn)] = true
-			construct := c.nm(fn) + " | filter store mutated => filterHeaderTip updated under newFilterHeadersMtx"
-			var g guard
-			for _, s := range sites {
-				idx := 0
-				if callTo(fhs("RollbackLastBlock"))(s) {
-					idx = 1
-				}
-				g2 := errNil(describeCall(s), []ssa.Instruction{s}, idx)
-				g.sites = append(g.sites, g2.sites...)
-			}
-			g.name = "filter store mutation succeeded"
-			st := storeToField(bm("filterHeaderTip"))
-			stH := storeToField(bm("filterHeaderTipHash"))
-			if len(find(fn, st)) == 0 {
-				c.fail(construct, c.at(sites[0]), fmt.Sprintf("%s changes the filter-header store (%s) but never updates b.filterHeaderTip: after it the in-memory tip (bound of NotificationsSinceHeight and of the filter sync) no longer equals the store's tip", c.nm(fn), join(c.ats(sites))), c.ats(sites)...)
-				continue
-			}
-			okA := c.mustFollowOptQuiet(fn, c.successEdges(g), st)
-			okB := c.mustFollowOptQuiet(fn, c.successEdges(g), stH)
-			okL := true
-			for _, s := range append(find(fn, st), find(fn, stH)...) {
-				if res[fn].mustHold[s][key] != "W" {
-					okL = false
+			if len(helpers) > 0 {
+				for _, in := range find(fn, callTo(helpers...)) {
+					n++
+					switch in.(type) {
+					case *ssa.Defer:
+						bad = append(bad, c.nm(fn)+" defers the emission at "+c.at(in))
+					case *ssa.Go:
+						bad = append(bad, c.nm(fn)+" emits from a new goroutine at "+c.at(in))
+					}
 				}
 			}
-			c.verdict(okA && okB && okL, construct, c.P.Pos(fn.Pos()), "both mirror fields stored under the mutex after the mutation", "a success path of the store mutation skips the update of filterHeaderTip/filterHeaderTipHash, or the update is not under newFilterHeadersMtx", c.ats(sites)...)
-			// ... and only then: the mirror moves with the filter store, not
-			// with the block headers (blocks above the filter tip have no
-			// committed filter header; a mirror raised to them makes the
-			// backlog offer blocks that were never announced)
-			c.guarded(fn, g, 1, "filterHeaderTip = .. (the mirror moves)", find(fn, st), 1, gDominate)
+			// a send on the event channel inside a deferred / spawned literal
+			sends := find(fn, func(in ssa.Instruction) bool {
+				switch x := in.(type) {
+				case *ssa.Send:
+					return loadsField(ch)(x.Chan)
+				case *ssa.Select:
+					for _, st := range x.States {
+						if st.Dir == types.SendOnly && loadsField(ch)(st.Chan) {
+							return true
+						}
+					}
+				}
+				return false
+			})
+			if len(sends) > 0 && fn.Parent() != nil {
+				n += len(sends)
+				for _, r := range ir.Refs(fn) {
+					_ = r
+				}
+				ir.Instrs(fn.Parent(), func(in ssa.Instruction) {
+					var cv ssa.Value
+					kind := ""
+					switch x := in.(type) {
+					case *ssa.Defer:
+						cv, kind = x.Call.Value, "deferred"
+					case *ssa.Go:
+						cv, kind = x.Call.Value, "spawned"
+					}
+					if mc, ok := cv.(*ssa.MakeClosure); ok && mc.Fn == ssa.Value(fn) {
+						bad = append(bad, c.nm(fn.Parent())+" sends a block event from a "+kind+" function literal at "+c.at(in))
+					}
+				})
+			} else {
+				n += len(sends)
+			}
 		}
-		if n < 2 {
-			c.undecided("functions mutating RegFilterHeaders | floor", "", fmt.Sprintf("found %d, need 2", n))
-		}
+		sort.Strings(bad)
+		c.verdict(n >= 2 && len(bad) == 0, "neutrino.blockManager | block events are emitted by plain calls", "", fmt.Sprintf("%d emission(s), none deferred or spawned", n), join(uniq(bad)))
 	})
 
 	c.rule("C19.W1", "single emitters: onBlockConnected is called only from writeCFHeadersMsg, onBlockDisconnected only from rollBackToHeight, and nothing else sends on blockNtfnChan (the two helpers, or the two functions themselves when the emission is written out in them); every such send can be abandoned on quit", func() {
@@ -346,6 +354,11 @@ func (c *Ctx) emitSites(fn *ssa.Function, helper, ctor string) []emitSite {
 	var out []emitSite
 	if m := c.P.Method("neutrino", "blockManager", helper); m != nil {
 		for _, in := range find(fn, callTo(m)) {
+			// a deferred or spawned emission is not an emission at this
+			// point of the function (C19.O6 reports it)
+			if _, isCall := in.(*ssa.Call); !isCall {
+				continue
+			}
 			out = append(out, emitSite{in, argsOf(in)})
 		}
 	}
@@ -503,4 +516,69 @@ func (c *Ctx) disconnectPayload() {
 			}
 		}
 		c.verdict(okv, c.nm(fn)+" | onBlockDisconnected(header@bs.Hash fetched before rollback, its height, header@newTip)", c.P.Pos(fn.Pos()), "arguments have the tabled provenance", "the disconnected event does not carry (old tip header, its height, new tip header) as fetched around the rollback", c.ats(disc)...)
+}
+
+const filterTipMirrorDoc = "mirror maintenance: filterHeaderTip/filterHeaderTipHash mirror the filter-header store's tip and bound the backlog; every blockManager function that mutates cfg.RegFilterHeaders (WriteHeaders, RollbackLastBlock) stores the new tip under newFilterHeadersMtx on its success path"
+
+// filterTipMirror: see filterTipMirrorDoc.
+func (c *Ctx) filterTipMirror() {
+	fhs := func(m string) *types.Func { return c.method("headerfs", "FilterHeaderStore", m) }
+	bm := func(f string) *types.Var { return c.field("neutrino", "blockManager", f) }
+		mut := callTo(fhs("WriteHeaders"), fhs("RollbackLastBlock"))
+		n := 0
+		res := c.lockResults()
+		key := lockKey{bm("newFilterHeadersMtx")}
+		for _, fn := range c.P.Funcs {
+			if c.P.Name(fn) == "" || fn.Parent() != nil {
+				continue
+			}
+			obj, _ := fn.Object().(*types.Func)
+			if obj == nil {
+				continue
+			}
+			sig := obj.Type().(*types.Signature)
+			if sig.Recv() == nil || !types.Identical(sig.Recv().Type(), types.NewPointer(c.P.Named("neutrino", "blockManager"))) {
+				continue
+			}
+			sites := find(fn, mut)
+			if len(sites) == 0 {
+				continue
+			}
+			n++
+			c.R.Funcs[c.nm(fn)] = true
+			construct := c.nm(fn) + " | filter store mutated => filterHeaderTip updated under newFilterHeadersMtx"
+			var g guard
+			for _, s := range sites {
+				idx := 0
+				if callTo(fhs("RollbackLastBlock"))(s) {
+					idx = 1
+				}
+				g2 := errNil(describeCall(s), []ssa.Instruction{s}, idx)
+				g.sites = append(g.sites, g2.sites...)
+			}
+			g.name = "filter store mutation succeeded"
+			st := storeToField(bm("filterHeaderTip"))
+			stH := storeToField(bm("filterHeaderTipHash"))
+			if len(find(fn, st)) == 0 {
+				c.fail(construct, c.at(sites[0]), fmt.Sprintf("%s changes the filter-header store (%s) but never updates b.filterHeaderTip: after it the in-memory tip (bound of NotificationsSinceHeight and of the filter sync) no longer equals the store's tip", c.nm(fn), join(c.ats(sites))), c.ats(sites)...)
+				continue
+			}
+			okA := c.mustFollowOptQuiet(fn, c.successEdges(g), st)
+			okB := c.mustFollowOptQuiet(fn, c.successEdges(g), stH)
+			okL := true
+			for _, s := range append(find(fn, st), find(fn, stH)...) {
+				if res[fn].mustHold[s][key] != "W" {
+					okL = false
+				}
+			}
+			c.verdict(okA && okB && okL, construct, c.P.Pos(fn.Pos()), "both mirror fields stored under the mutex after the mutation", "a success path of the store mutation skips the update of filterHeaderTip/filterHeaderTipHash, or the update is not under newFilterHeadersMtx", c.ats(sites)...)
+			// ... and only then: the mirror moves with the filter store, not
+			// with the block headers (blocks above the filter tip have no
+			// committed filter header; a mirror raised to them makes the
+			// backlog offer blocks that were never announced)
+			c.guarded(fn, g, 1, "filterHeaderTip = .. (the mirror moves)", find(fn, st), 1, gDominate)
+		}
+		if n < 2 {
+			c.undecided("functions mutating RegFilterHeaders | floor", "", fmt.Sprintf("found %d, need 2", n))
+		}
 }
